@@ -3,9 +3,12 @@ package main
 
 import (
 	"github.com/drand/drand/v2/zzverif/cli"
+	"github.com/drand/drand/v2/zzverif/engcodec"
 	"github.com/drand/drand/v2/zzverif/engcrash"
 	"github.com/drand/drand/v2/zzverif/engdkgrun"
 	"github.com/drand/drand/v2/zzverif/engnode"
+	"github.com/drand/drand/v2/zzverif/engrobust"
+	"github.com/drand/drand/v2/zzverif/engrouting"
 	"github.com/drand/drand/v2/zzverif/engsecrecy"
 	"github.com/drand/drand/v2/zzverif/engstore"
 	"github.com/drand/drand/v2/zzverif/engsync"
@@ -15,14 +18,20 @@ import (
 
 func main() {
 	cli.Main(map[string]cli.RunFn{
-		"extract": func(out string, _ int64, _ string) error { return extract.Run(cli.Repo, out) },
-		"time":    engtime.Run,
-		"node":    engnode.Run,
-		"sync":    engsync.Run,
-		"dkgrun":  engdkgrun.Run,
-		"secrecy": engsecrecy.Run,
-		"crash":   engcrash.Run,
-		"store":   engstore.RunStore,
-		"stack":   engstore.RunStack,
+		"extract":  func(out string, _ int64, _ string) error { return extract.Run(cli.Repo, out) },
+		"time":     engtime.Run,
+		"node":     engnode.Run,
+		"reshare":  engnode.RunReshare,
+		"sync":     engsync.Run,
+		"dkgrun":   engdkgrun.Run,
+		"secrecy":  engsecrecy.Run,
+		"crash":    engcrash.Run,
+		"store":    engstore.RunStore,
+		"stack":    engstore.RunStack,
+		"routing":  engrouting.Run,
+		"hash":     engcodec.RunHash,
+		"codec":    engcodec.RunCodec,
+		"infojson": engcodec.RunInfoJSON,
+		"robust":   engrobust.Run,
 	})
 }
